@@ -36,7 +36,7 @@ TABLE = {
              "DESIGN.md 8 C11, Appendix B.2", "Lean 4 invariant by induction over operation sequences + correspondence"),
     "C12": e("Lean stutter theorems: a service step in which the read is refused / the write is refused leaves the acting machine's state unchanged (nothing but the refusal is observable), for every state.",
              "DESIGN.md 8 C12", "Lean 4 stutter lemmas per state + differential schedules"),
-    "C13": e("Lean theorems: the ring refines a bounded FIFO for any capacity and any number of laps (push accepted iff fewer than capacity waiting; pop returns the oldest), the invariant holds along every operation history, `full` predicts `trigger`.",
+    "C13": e("Lean theorems: the ring refines a bounded FIFO for any capacity and any number of laps (push accepted iff fewer than capacity waiting; pop returns the oldest), the invariant holds along every operation history, `full` predicts `trigger`; and at trace level (C13_fifo_exactly_once) over any history, nested triggers included: accepted events = events handed to the unsolicited machine ++ events still waiting, in acceptance order.",
              "DESIGN.md 8 C13", "Lean 4 data refinement (ring -> abstract queue) + invariant over all histories + correspondence at capacities 1,2,3,8"),
     "C14": e("Lean theorems for every operation history without HOLD from event handlers: hold flag <-> HOLD state; while held no input is read and no result code started; release requests outside hold return ERROR_NOT_HOLD and change nothing.",
              "DESIGN.md 8 C14, Appendix B.3", "Lean 4 invariant by induction over operation sequences + correspondence"),
